@@ -88,6 +88,7 @@ type c01Plan struct {
 	N, T   int
 	Idents []string
 	Kinds  []string
+	IDMode string // "", "lead0", "trail0": byte strings of the first two identities (World.NewWorldIDMode)
 }
 
 func (p c01Plan) cfg(emit bool) string {
@@ -103,15 +104,15 @@ func (p c01Plan) cfg(emit bool) string {
 }
 
 type c01Out struct {
-	plan                       c01Plan
-	states, distinct           int
-	behaviours, steps, lines   int
-	traces                     int
-	viol                       []kgLine
-	violMon                    []string
-	drift                      []kgLine
-	sample                     any
-	alphabet                   []Token
+	plan                     c01Plan
+	states, distinct         int
+	behaviours, steps, lines int
+	traces                   int
+	viol                     []kgLine
+	violMon                  []string
+	drift                    []kgLine
+	sample                   any
+	alphabet                 []Token
 }
 
 func runC01Plan(c *core.Ctx, p c01Plan, maxBeh int) (*c01Out, error) {
@@ -192,7 +193,7 @@ func runC01Plan(c *core.Ctx, p c01Plan, maxBeh int) (*c01Out, error) {
 		wg.Add(1)
 		go func(ci int) {
 			defer wg.Done()
-			w := NewWorld(p.N, p.T, consts.Idents, c.Seed)
+			w := NewWorldIDMode(p.N, p.T, consts.Idents, c.Seed, 0, p.IDMode)
 			var buf bytes.Buffer
 			enc := func(l kgLine) {
 				if l.Hist == nil {
@@ -338,7 +339,19 @@ func CheckC01(c *core.Ctx) int {
 			if n >= 3 || c.Thorough() {
 				ids = []string{"i1", "i2"}
 			}
-			plans = append(plans, c01Plan{N: n, T: t, Idents: ids, Kinds: kinds})
+			// boundary identities: pairs that differ only by leading / trailing zero bytes (the map
+			// keys of EpochKG are hex strings of the preimage)
+			mode := ""
+			if len(ids) == 2 {
+				mode = []string{"lead0", "trail0", ""}[(n+t+int((c.Seed%3+3)%3))%3]
+				if n == 3 && t == 2 {
+					mode = "lead0"
+				}
+				if n == 3 && t == 3 {
+					mode = "trail0"
+				}
+			}
+			plans = append(plans, c01Plan{N: n, T: t, Idents: ids, Kinds: kinds, IDMode: mode})
 		}
 	}
 	if c.Thorough() {
@@ -381,8 +394,8 @@ func CheckC01(c *core.Ctx) int {
 			fmt.Println("INCONCLUSIVE:", err)
 			return core.ExitInconclusive
 		}
-		c.Logf("A n=%d t=%d ids=%d: %d distinct states, %d behaviours replayed, %d lines validated, %d violations, %d drift",
-			p.N, p.T, len(p.Idents), o.distinct, o.behaviours, o.lines, len(o.viol), len(o.drift))
+		c.Logf("A n=%d t=%d ids=%d%s: %d distinct states, %d behaviours replayed, %d lines validated, %d violations, %d drift",
+			p.N, p.T, len(p.Idents), p.IDMode, o.distinct, o.behaviours, o.lines, len(o.viol), len(o.drift))
 		states += o.distinct
 		trans += o.states
 		traces += o.traces
@@ -477,7 +490,7 @@ func replayC01(c *core.Ctx) int {
 			fmt.Println("INCONCLUSIVE: bad plan in replay file")
 			return core.ExitInconclusive
 		}
-		w := NewWorld(p.N, p.T, p.Idents, c.Seed)
+		w := NewWorldIDMode(p.N, p.T, p.Idents, c.Seed, 0, p.IDMode)
 		kg := epochkg.NewEpochKG(w.PureResult(0))
 		enc := func(l kgLine) {
 			if l.Hist == nil {
